@@ -159,6 +159,11 @@ impl<M: MemBuilder> AnyVecRaw<M> {
 
         self.reserve_one();
 
+        // `value.move_into` may run user code (LazyClone). If it panics, shifted
+        // tail must not be visible - prematurely lower the length (leak on panic).
+        let len = self.len;
+        self.len = index;
+
         // Compile time type optimization
         if !Unknown::is::<V::Type>(){
             let element = self.mem.as_mut_ptr().cast::<V::Type>().add(index);
@@ -167,7 +172,7 @@ impl<M: MemBuilder> AnyVecRaw<M> {
             ptr::copy(
                 element,
                 element.add(1),
-                self.len - index
+                len - index
             );
 
             // 2. write value
@@ -180,14 +185,14 @@ impl<M: MemBuilder> AnyVecRaw<M> {
             crate::copy_bytes(
                 element,
                 element.add(element_size),
-                element_size * (self.len - index)
+                element_size * (len - index)
             );
 
             // 2. write value
             value.move_into::<V::Type>(element, element_size);
         }
 
-        self.len += 1;
+        self.len = len + 1;
     }
 
     /// # Safety
